@@ -251,6 +251,11 @@ pub fn path_families(tier: &str) -> Vec<Family> {
     v.push(fam(UM, 3, "u", &ORD_ROUTES));
     v.push(fam(DM, 3, "u", &ORD_ROUTES));
     v.extend(hist_small("w12", true));
+    // weights keyed by the source / target node (row- or column-uniform weights)
+    for s in ["ksrc", "ksrc2", "kdst"] {
+        v.push(fam(DS, 4, s, &ORD_ONE));
+    }
+    v.push(fam(DS, 3, "ksum", &ORD_ONE));
     if tier == "quick" {
         for n in 0..=3 {
             for k in kinds_all() {
